@@ -1182,11 +1182,11 @@ class Interp(object):
         if isinstance(e.slice, ast.Slice):
             lo = self.eval(e.slice.lower, f) if e.slice.lower else None
             hi = self.eval(e.slice.upper, f) if e.slice.upper else None
-            if isinstance(v, (list, tuple, str)):
+            if isinstance(v, (list, tuple, str, bytes)):
                 return v[lo:hi]
             raise Uninterpretable('slice of %r' % (v,))
-        i = self.eval(e.slice, f)
-        if isinstance(v, (list, tuple, str)):
+        i = self.index_value(self.eval(e.slice, f))
+        if isinstance(v, (list, tuple, str, bytes)):
             if not isinstance(i, int):
                 raise Uninterpretable('index %r' % (i,))
             try:
@@ -1205,6 +1205,9 @@ class Interp(object):
             if m is not None:
                 return self.call(FuncVal(m.rel, m.node, None, v, m.cls), [i], {})
         raise Uninterpretable('%s:%s subscript of %r' % (f.rel, e.lineno, v))
+
+    def index_value(self, i):
+        return i
 
     def e_Call(self, e, f):
         fn = self.eval(e.func, f)
@@ -1334,7 +1337,12 @@ class Interp(object):
                 raise Uninterpretable('slice assignment')
             i = self.eval(t.slice, f)
             if isinstance(c, (list, dict)):
-                c[i] = v
+                try:
+                    c[i] = v
+                except TypeError as e:          # unhashable key: the interpreted program's own exception
+                    raise InterpRaise('TypeError', str(e), t)
+                except IndexError as e:
+                    raise InterpRaise('IndexError', str(e), t)
             else:
                 raise Uninterpretable('subscript store on %r' % (c,))
         else:
